@@ -40,3 +40,29 @@ package coordinator
 //@   call (*writeHelper).createMeasurement
 //@     requires [compare_before_overwrite] cmp
 //@     set cmp = false
+
+// ================================================================ C11: the read side resolves the shard key per shard group
+// A measurement-level shard key can change (ALTER ... SHARDKEY): the new key applies from the next shard group on and
+// the writer resolves it per group. The reader must prune each group with THAT group's shard key: a database-level
+// key if there is one, otherwise the key GetShardKey answers for the group being mapped.
+//@ prop C11
+//@ func (*ClusterShardMapper).mapMstShards
+//@   ghost dbKey Ptr = nil
+//@   ghost gk Ptr = nil
+//@   ghost gkFor uint64 = 0
+//@   call (*ClusterShardMapper).getTargetShardMsg
+//@     set dbKey = ret1
+//@   call (*MeasurementInfo).GetShardKey
+//@     set gk = ret0
+//@     set gkFor = arg0
+//@     frame nothing
+//@   call .GetAliveShards
+//@     frame nothing
+//@   call (*ClusterShardMapper).updateShardInfosByPtID
+//@     frame nothing
+//@   call .TargetShards
+//@     requires [shard_key_of_this_group] (dbKey != nil ==> arg1 == dbKey) && (dbKey == nil ==> arg1 == gk && gkFor == recv.ID)
+//@     frame nothing
+//@   call .TargetShardsHintQuery
+//@     requires [shard_key_of_this_group] (dbKey != nil ==> arg1 == dbKey) && (dbKey == nil ==> arg1 == gk && gkFor == recv.ID)
+//@     frame nothing
